@@ -131,16 +131,33 @@ func Mat(id int) *modeling.Material {
 	return m
 }
 
+var matCopies = map[*modeling.Material]int{}
+
+// MatId returns the identity of a material POINTER: the canonical pointer of
+// identity id (project.Mat) projects to id; any other pointer whose value is
+// named like identity id - a copy made by Mesh.SetMaterial or
+// SplitOnUniqueMaterials, which store the address of a copied value - projects
+// to id + 1000*k with a fresh k per pointer. polyform's split keys materials by
+// pointer, so copies are different materials for it.
 func MatId(m *modeling.Material) int {
 	if m == nil {
 		return 0
 	}
+	base := 98
 	if len(m.Name) > 1 && m.Name[0] == 'm' {
 		if v, err := strconv.Atoi(m.Name[1:]); err == nil {
-			return v
+			base = v
 		}
 	}
-	return 98
+	if canon, ok := matPtrs[base]; ok && canon == m {
+		return base
+	}
+	if id, ok := matCopies[m]; ok {
+		return id
+	}
+	id := base + 1000*(len(matCopies)+1)
+	matCopies[m] = id
+	return id
 }
 
 // Mesh projects a real mesh through PUBLIC observers only.
